@@ -138,6 +138,28 @@ def gen_deps(prop_file):
     return sorted(os.path.basename(t)[:-1] for t in seen if t.startswith("gen/"))
 
 
+PINNED = os.path.join(VERIF, "pinned_sources.json")
+
+
+def source_digest():
+    h = {}
+    for root, dirs, files in os.walk(REPO):
+        dirs[:] = [d for d in dirs if d not in ("target", ".git")]
+        for fn in files:
+            if fn.endswith((".rs", ".rustpeg", ".varlink", ".toml")):
+                p = os.path.join(root, fn)
+                h[os.path.relpath(p, REPO)] = hashlib.sha256(open(p, "rb").read()).hexdigest()
+    return h
+
+
+def sources_changed():
+    try:
+        pinned = json.load(open(PINNED))
+    except Exception:
+        return False
+    return source_digest() != pinned
+
+
 # --------------------------------------------------------------------------
 # Coq
 
@@ -367,6 +389,10 @@ class Check:
     def __init__(self, pid, tier, seed):
         self.pid = pid
         self.tier = tier
+        # the quick tier explores more (the thorough tier's input sets) as soon as the sources under check differ from
+        # the pinned ones: on an unchanged tree it stays fast, on a changed tree the search for a failing input is deep
+        self.deepened = tier == "quick" and sources_changed()
+        self.quick = tier == "quick" and not self.deepened
         self.seed = seed
         self.t0 = time.time()
         self.obligations = {}       # theorem -> (ok, axioms)
@@ -498,6 +524,8 @@ class Check:
             "known_findings_observed": self.known,
         }
         cov.update(self.extra)
+        if self.deepened:
+            cov["deepened"] = "sources differ from pinned_sources.json: the quick tier used the thorough tier's input sets"
         ev = {
             "property_id": self.pid,
             "tier": self.tier,
